@@ -20,15 +20,19 @@ inductive Decomp (L : Str → Str → Prop) (ceq : Char → Char → Bool) : Lis
 
 /-- What is assumed of the `regex` crate about the pattern built from ONE token list `ts`, for one
 case-sensitivity setting: `full p s` = `^p$` matches `s`, `search p s` = `p` matches somewhere in `s`, `caps p s` =
-the named groups of the match of `^p$`.  `L` is the language of the marker expressions under that setting. -/
+the named groups of the match of `^p$`.  `L` is the language of the marker expressions under that setting.
+In the capturing pattern only the FIRST group of a name is a named group (`renderCapture`), so the captured value
+of a repeated marker is the value consumed by its first group: `vs.lookup n`. -/
 structure EngineLaws (L : Str → Str → Prop) (ceq : Char → Char → Bool)
     (full search : Str → Str → Bool) (caps : Str → Str → Option (List (Str × Str))) (ts : List Tok) : Prop where
   full_iff : ∀ s, full (renderRegex ts) s = true ↔ ∃ vs, Decomp L ceq ts s vs
   search_iff : ∀ s, search (renderRegex ts) s = true ↔ ∃ a mid b vs, s = a ++ mid ++ b ∧ Decomp L ceq ts mid vs
   /-- the engine returns the groups of SOME decomposition (which one is its business) -/
-  caps_sound : ∀ s m, (groupNames ts).Nodup → caps (renderCapture ts) s = some m →
+  caps_sound : ∀ s m, caps (renderCapture ts) s = some m →
     ∃ vs, Decomp L ceq ts s vs ∧ ∀ n, m.lookup n = vs.lookup n
-  caps_complete : ∀ s, (groupNames ts).Nodup → (∃ vs, Decomp L ceq ts s vs) → (caps (renderCapture ts) s).isSome = true
+  caps_complete : ∀ s, (∃ vs, Decomp L ceq ts s vs) → (caps (renderCapture ts) s).isSome = true
+  /-- the result is a map: every group name once -/
+  caps_nodup : ∀ s m, caps (renderCapture ts) s = some m → (names m).Nodup
 
 theorem decomp_inst (L : Str → Str → Prop) (ceq : Char → Char → Bool) (hrefl : ∀ c, ceq c c = true)
     (ts : List Tok) (v : Str → Str) (hacc : ∀ n re, Tok.grp n re ∈ ts → L re (v n)) :
@@ -173,5 +177,104 @@ theorem decomp_unique (L : Str → Str → Prop) (ceq : Char → Char → Bool) 
               obtain ⟨rfl, rfl⟩ := h1
               rw [hvw]; exact hw
             · exact this.2 n' re' h1
+
+theorem decomp_names {L : Str → Str → Prop} {ceq : Char → Char → Bool} {ts : List Tok} {s : Str}
+    {vs : List (Str × Str)} (h : Decomp L ceq ts s vs) : names vs = groupNames ts := by
+  induction h with
+  | nil => rfl
+  | lit _ _ ih => simpa [groupNames] using ih
+  | grp _ _ ih => simp only [names, List.map_cons, groupNames] at ih ⊢; rw [ih]
+
+/-! ### `HashMap::extend` on an empty map -/
+
+theorem lookup_append' {β : Type} (a b : List (Str × β)) (n : Str) :
+    (a ++ b).lookup n = (a.lookup n).or (b.lookup n) := by
+  induction a with
+  | nil => simp
+  | cons p ps ih =>
+    obtain ⟨k, v⟩ := p
+    simp only [List.cons_append, List.lookup_cons]
+    cases n == k <;> simp [ih]
+
+theorem lookup_filter_ne {β : Type} (acc : List (Str × β)) (k n : Str) :
+    (acc.filter fun e => e.1 != k).lookup n = if n = k then none else acc.lookup n := by
+  induction acc with
+  | nil => simp
+  | cons p ps ih =>
+    obtain ⟨a, v⟩ := p
+    by_cases hak : a = k
+    · subst hak
+      simp only [List.filter_cons, bne_self_eq_false, Bool.false_eq_true, if_false, ih, List.lookup_cons]
+      by_cases hn : n = a
+      · simp [hn]
+      · have : (n == a) = false := by simpa using hn
+        simp [hn, this]
+    · have : (a != k) = true := by simpa using hak
+      simp only [List.filter_cons, this, if_true, List.lookup_cons, ih]
+      by_cases hn : n = a
+      · subst hn; simp [hak]
+      · have : (n == a) = false := by simpa using hn
+        simp [this]
+
+theorem lookup_extendMap (acc kv : List (Str × Str)) (hnd : (names kv).Nodup) (n : Str) :
+    (extendMap acc kv).lookup n = (kv.lookup n).or (acc.lookup n) := by
+  induction kv generalizing acc with
+  | nil => simp [extendMap]
+  | cons p ps ih =>
+    obtain ⟨k, v⟩ := p
+    simp only [names, List.map_cons, List.nodup_cons] at hnd
+    have hstep : extendMap acc ((k, v) :: ps) = extendMap ((acc.filter fun e => e.1 != k) ++ [(k, v)]) ps := by
+      simp [extendMap]
+    rw [hstep, ih _ hnd.2, lookup_append', lookup_filter_ne]
+    simp only [List.lookup_cons]
+    by_cases hn : n = k
+    · subst hn
+      have hnot : ps.lookup n = none := by
+        cases hl : ps.lookup n with
+        | none => rfl
+        | some w =>
+          have := mem_of_lookup_eq_some hl
+          exact absurd (List.mem_map.mpr ⟨(n, w), this, rfl⟩) hnd.1
+      simp [hnot]
+    · have : (n == k) = false := by simpa using hn
+      simp [hn, this]
+
+theorem lookup_extendMap_nil (kv : List (Str × Str)) (hnd : (names kv).Nodup) (n : Str) :
+    (extendMap [] kv).lookup n = kv.lookup n := by
+  rw [lookup_extendMap [] kv hnd]; cases kv.lookup n <;> simp
+
+/-! ### a capture list as a map -/
+
+/-- Keep the first entry of every name. -/
+def dedupKeys : List (Str × Str) → List (Str × Str)
+  | [] => []
+  | p :: ps => p :: (dedupKeys ps).filter (fun e => e.1 != p.1)
+
+theorem lookup_dedupKeys (vs : List (Str × Str)) (n : Str) : (dedupKeys vs).lookup n = vs.lookup n := by
+  induction vs with
+  | nil => rfl
+  | cons p ps ih =>
+    obtain ⟨k, v⟩ := p
+    simp only [dedupKeys, List.lookup_cons, lookup_filter_ne, ih]
+    by_cases hn : n = k
+    · simp [hn]
+    · have : (n == k) = false := by simpa using hn
+      simp [this, hn]
+
+theorem nodup_names_dedupKeys (vs : List (Str × Str)) : (names (dedupKeys vs)).Nodup := by
+  induction vs with
+  | nil => simp [dedupKeys, names]
+  | cons p ps ih =>
+    obtain ⟨k, v⟩ := p
+    simp only [dedupKeys, names, List.map_cons, List.nodup_cons]
+    constructor
+    · intro h
+      obtain ⟨q, hq, hqk⟩ := List.mem_map.mp h
+      have := (List.mem_filter.mp hq).2
+      simp at this
+      exact this hqk
+    · have hsub : List.Sublist (((dedupKeys ps).filter (fun e => e.1 != k)).map (·.1)) ((dedupKeys ps).map (·.1)) :=
+        List.Sublist.map _ List.filter_sublist
+      exact List.Nodup.sublist hsub ih
 
 end Rio.Marker
